@@ -277,6 +277,20 @@ func zzOwnCommit(r *simcore.Run, s *chansim.Sim, x int, pre map[[32]byte][32]byt
 	fp := s.ForkParty(x)
 	defer fp.KV.Close()
 	who := fmt.Sprintf("%s own commitment height %d", fp.Name, st.LocalCommitment.CommitHeight)
+	// A cooperative close that was started and not finished: on every other
+	// clean state (no HTLC on the commitment, not taproot - that path needs a
+	// musig session) the object first signs a close proposal, as the channel
+	// closer does on the link's object before the negotiation is given up.
+	// Whatever that leaves behind on the object must not reach the
+	// signature of the commitment. API-level coverage: lnd force-closes on a
+	// freshly loaded object.
+	if len(st.LocalCommitment.Htlcs) == 0 && !st.ChanType.IsTaproot() && st.LocalCommitment.CommitHeight%2 == 0 {
+		script := append([]byte{0x00, 0x14}, make([]byte, 20)...)
+		if _, _, _, err := fp.Chan.CreateCloseProposal(500, script, script); err == nil {
+			r.Count("probe_close_proposal_signed_before_force_close")
+			who += " (after an abandoned close proposal)"
+		}
+	}
 	sum, err := fp.Chan.ForceClose()
 	if err != nil {
 		r.Fail("force-close", "%s: ForceClose on the reloaded channel fails: %v", who, err)
